@@ -23,7 +23,7 @@ def run(tier, seed, ck=None):
     ck.assumptions += ['operands are valid representations (the invariant of C10)']
     ck.bounds.update({'operands': 'all coordinate 6-tuples as ring elements', 'aliasing': 'distinct / same element'})
     from props import C12
-    C12.run(tier, seed, ck)   # contracts of the field.Element methods used as summaries are re-proved on the current tree
+    C12.run(tier, seed, ck, which=['Multiply', 'Equals', 'IsZero'])   # contracts of the field.Element methods used as summaries are re-proved on the current tree
     for al, r in enumerate(runs):
         tag = 'C05.alias%d' % al
         ok = len(r.paths) == 1 and r.paths[0]['end'] == 'return'
